@@ -13,7 +13,7 @@ Gen_<target>.v over the runtime coq/theories/PyRt.v:
                     py_return / py_raise / py_guard) over  st -> ctl R * st
     fn              py_run body init_st : result R
 
-Supported: docstrings and logging calls (dropped), `x = e`, `x += e`, `x -= e`, `for <name or tuple of names> in <list>`,
+Supported: docstrings and logging calls (dropped, but d[k] / data[attr] inside them keep their KeyError guards), `x = e`, `x += e`, `x -= e`, `for <name or tuple of names> in <list>`,
 nested loops, if/elif/else, continue, pass, `return e`, `raise ValueError(...)` (also KeyError/TypeError/RuntimeError),
 int / bool constants, float("-inf"), tuples, + and -, one comparison (< <= > >= == != in, not in, is None, is not None),
 and/or/not, max(a,b), min(a,b), len(l), set(l), list(l), set(), d.get(k[, default]), d[k], k in d, t[0] / t[1] on a pair,
@@ -499,11 +499,28 @@ class Fn:
         env["defined"] = env["defined"] | {name}
         return "py_assign (fun s => set_%s %s s)" % (self.xname[name], coerce(term, ty, env["final"].get(name, env["vt"][name]), node))
 
+    def dropped_guards(self, node, env):
+        """A dropped logging call / exception message is still EVALUATED by Python: the partial operations in it that the
+        subset can express (d[k], data[attr]) keep their guards, so a KeyError raised while formatting a message is modelled."""
+        guards = []
+        def walk(n):
+            if isinstance(n, ast.Subscript):
+                try:
+                    guards.extend(self.expr(n, env)[2]); return
+                except Unsupported:
+                    pass
+            for c in ast.iter_child_nodes(n):
+                walk(c)
+        walk(node)
+        return guards
+
     def stmt(self, s, env):
         """returns (gallina stmt term, falls_through: bool)"""
         if isinstance(s, ast.Expr):
             if isinstance(s.value, ast.Constant) and isinstance(s.value.value, str): return None, True   # docstring / string statement
-            if is_logging_call(s.value): return None, True
+            if is_logging_call(s.value):
+                g = self.dropped_guards(s.value, env)
+                return (self.guarded(g, "py_skip") if g else None), True
             raise Unsupported("expression statement", s)
         if isinstance(s, ast.Pass): return None, True
         if isinstance(s, ast.Assign):
@@ -529,7 +546,7 @@ class Fn:
             if s.cause is not None or ex is None: raise Unsupported("raise form", s)
             name = ex.func.id if isinstance(ex, ast.Call) and isinstance(ex.func, ast.Name) else (ex.id if isinstance(ex, ast.Name) else None)
             if name not in EXNS: raise Unsupported("raise of %s (only %s)" % (name, "/".join(EXNS)), s)
-            return "py_raise %s" % name, False      # the message is dropped; its f-string is not evaluated in the model
+            return self.guarded(self.dropped_guards(ex, env), "py_raise %s" % name), False      # the message text is dropped
         if isinstance(s, ast.If):
             t, ty, g = self.expr(s.test, env)
             if ty != BOOL: raise Unsupported("condition of type %s (truthiness of non-booleans is not translated)" % show(ty), s.test)
